@@ -124,8 +124,13 @@ def _get_adapter_case_insensitively_from_module(mod, adapter_name):
 def _load_directly(adapter_cfg, include_faulty, executor):
     name, path = next(iter(adapter_cfg.items()))
     full_path = join(executor.config_dir, path)
-    with open(full_path, "r") as adapter_file:  # pylint: disable=unspecified-encoding
-        file_content = adapter_file.read()
+    try:
+        with open(full_path, "r") as adapter_file:  # pylint: disable=unspecified-encoding
+            file_content = adapter_file.read()
+    except OSError:
+        # the file of a custom adapter that is missing or unreadable is an adapter
+        # that cannot be found: the run is reported as failed, like for an unknown name
+        return None
 
     module_globals = {"__name__": name}
     code = compile(file_content, full_path, "exec")
